@@ -166,7 +166,7 @@ fn dump_corpus(tier: &str, path: &str) {
             texts.push(c.text);
         }
     }
-    for (_, t) in c02::position_docs(&g) {
+    for (_, t) in c02::position_docs(&g).into_iter().chain(c02::position_mixed_docs(&g)) {
         texts.push(t);
     }
     for l in c06::build(&g, false) {
